@@ -67,6 +67,7 @@ def run(ctx):
     pooled_schedules(ctx)
     from checks import growth
     growth.safely(ctx, growth.run_history_and_predicates)
+    growth.safely(ctx, growth.run_client_session)
 
 
 def pooled_schedules(ctx):
